@@ -285,13 +285,16 @@ OpNeg(a) == IF a.t \in {"err", "anyerr"} THEN a ELSE IF a.t \in {"open", "arr"} 
 OpPct(a) == IF a.t \in {"err", "anyerr"} THEN a ELSE IF a.t \in {"open", "arr"} THEN Open
             ELSE LET x == ToNum(a) IN IF x.t \in {"err", "open"} THEN x ELSE RDiv(x, Whole(100))
 
+CellTextLimit == 32767
 OpConcat(a, b) ==
     IF a.t = "open" THEN Open
     ELSE IF a.t \in {"err", "anyerr"} THEN a
     ELSE IF b.t \in {"err", "anyerr"} THEN b
     ELSE IF a.t = "arr" \/ b.t \in {"open", "arr"} THEN Open
     ELSE LET x == ToText(a)  y == ToText(b) IN
-         IF x.t = "open" \/ y.t = "open" THEN Open ELSE Txt(x.v \o y.v)
+         IF x.t = "open" \/ y.t = "open" THEN Open
+         ELSE IF Len(x.v) + Len(y.v) > CellTextLimit THEN Open      \* longer than any cell of Excel holds: the text, or an error value
+         ELSE Txt(x.v \o y.v)
 
 (* ---------------------------------------------------------------------- *)
 (* the total order on values (C09)                                         *)
